@@ -584,6 +584,18 @@ func policyOpts(node bool, policy string) []eventlogger.Option {
 	if policy == "" {
 		return nil
 	}
+	with := eventlogger.WithPipelineRegistrationPolicy
+	if node {
+		with = eventlogger.WithNodeRegistrationPolicy
+	}
+	switch policy {
+	case "ExplicitEmpty":
+		// the empty string given explicitly is not one of the two policies
+		return []eventlogger.Option{with("")}
+	case "BogusThenDeny":
+		// an invalid value is invalid whatever follows it in the same call
+		return []eventlogger.Option{with("bogus"), with(eventlogger.DenyOverwrite)}
+	}
 	if node {
 		return []eventlogger.Option{eventlogger.WithNodeRegistrationPolicy(eventlogger.RegistrationPolicy(policy))}
 	}
